@@ -16,6 +16,7 @@ import (
 	"crypto/x509/pkix"
 
 	"github.com/tjfoc/gmsm/gmtls"
+	"github.com/tjfoc/gmsm/pkcs12"
 	"github.com/tjfoc/gmsm/sm2"
 	"github.com/tjfoc/gmsm/x509"
 )
@@ -36,6 +37,7 @@ func init() {
 	evals["pkcs8"] = evalPkcs8
 	evals["pubpem"] = evalPubpem
 	evals["loader"] = evalLoader
+	evals["sigdec"] = evalSigdec
 	gens["C14"] = genC14
 }
 
@@ -235,6 +237,18 @@ func evalLoader(args []string) string {
 	if err != nil {
 		return "bad-op:key"
 	}
+	if args[2] == "sec1" || args[2] == "sec1other" {
+		// the SEC1 "EC PRIVATE KEY" form (pkcs12.MarshalECPrivateKey writes it, x509.ParseSm2PrivateKey reads it)
+		src := kc
+		if args[2] == "sec1other" {
+			src = kk
+		}
+		der, e := pkcs12.MarshalECPrivateKey(src)
+		if e != nil {
+			return "bad-op:sec1"
+		}
+		keyPEM = pem.EncodeToMemory(&pem.Block{Type: "EC PRIVATE KEY", Bytes: der})
+	}
 	if args[2] == "forgedpub" {
 		// another scalar, but the optional publicKey field of the ECPrivateKey holds the CERTIFICATE's point: the
 		// key that counts is d, the public point is [d]G whatever the file claims
@@ -369,7 +383,7 @@ func genC14(r *rng, tier string, emit func(string)) {
 		emit(fmt.Sprintf("pkcs8 %s %s %s", bhex(k.d), pw, wrong))
 		// loaders
 		kinds := []string{"x509keypair", "gmsingle", "gmpairs-sign", "gmpairs-enc", "loadfiles", "loadgmfiles"}
-		emit(fmt.Sprintf("loader %s %s %s", kinds[i%len(kinds)], bhex(k.d), []string{"same", "other", "neg", "forgedpub"}[(i/len(kinds))%4]))
+		emit(fmt.Sprintf("loader %s %s %s", kinds[i%len(kinds)], bhex(k.d), []string{"same", "other", "neg", "forgedpub", "sec1", "sec1other"}[(i/len(kinds))%6]))
 	}
 	// decompression of arbitrary inputs
 	for i := 0; i < n; i++ {
@@ -459,4 +473,43 @@ func c14ForgedPubPEM(keyPEM []byte, pub *sm2.PrivateKey) ([]byte, error) {
 		return nil, err
 	}
 	return pem.EncodeToMemory(&pem.Block{Type: blk.Type, Bytes: der}), nil
+}
+
+// sigdec <sig> : sm2.SignDataToSignDigit - the DER decoder of a signature: "ok <r> <s>" (signed hex) or err; only the
+// DER encoding of a pair of integers decodes (the Lean side is the strict parser Spec.DER.decSig)
+func evalSigdec(args []string) string {
+	if len(args) != 1 {
+		return "bad-op"
+	}
+	sig, ok := unhx(args[0])
+	if !ok {
+		return "bad-op"
+	}
+	r, s, err := sm2.SignDataToSignDigit(sig)
+	if err != nil || r == nil || s == nil {
+		return "err"
+	}
+	return "ok " + r.Text(16) + " " + s.Text(16)
+}
+
+func genSigdec(r *rng, emit func(string)) {
+	for i := 0; i < 6; i++ {
+		k := r.sm2key()
+		sig, err := privFromD(k.d).Sign(&fixedRand{r.bytes(200)}, r.bytes(1+r.intn(30)), nil)
+		if err != nil || len(sig) < 8 || sig[1] >= 0x80 {
+			continue
+		}
+		emit("sigdec " + hx(sig))
+		emit("sigdec " + hx(append(append([]byte{}, sig...), 0)))                                                     // a byte after the SEQUENCE
+		emit("sigdec " + hx(append(append([]byte{}, sig...), 0xde, 0xad)))                                            // more of them
+		for _, extra := range [][]byte{{0x05, 0x00}, {0x02, 0x01, 0x01}, {0x04, 0x03, 'p', 'a', 'd'}, {0x30, 0x00}} { // a third member
+			in := append(append([]byte{}, sig[2:]...), extra...)
+			emit("sigdec " + hx(append([]byte{0x30, byte(len(in))}, in...)))
+		}
+		emit("sigdec " + hx(append([]byte{0x30, 0x81, sig[1]}, sig[2:]...))) // non-minimal length
+		emit("sigdec " + hx(sig[:len(sig)-1]))                               // truncated
+	}
+	emit("sigdec 3006020101020101")
+	emit("sigdec 30060201ff020101") // a negative integer is a DER integer
+	emit("sigdec -")
 }
